@@ -386,6 +386,7 @@ def run(ctx):
             c = prepared[item_case[bad[0]]]
             ctx.broken[-1]["detail"] = {"failing_case_count": len(bad), "first": {"shape": c[0], "G": c[1], "samples": c[2], "roots": c[11]}, "item": items[bad[0]][:600]}
     fft_stream(ctx, quick)
+    many_children_stream(ctx, quick)
     extreme_stream(ctx, 60 if quick else 400)
     extreme_multisample(ctx, 3 if quick else 12)
     ctx.assumptions += [
@@ -393,6 +394,60 @@ def run(ctx):
         "per-clone log_r is read through Tree._graph (private); when unreachable only the public root vector is compared",
         "likelihood values are k/16 (narrow dynamic range) on the exact streams so float error stays below 1e-12",
     ]
+
+
+# ------------------------------------------------------------------ nodes with many children
+def _exact_R(node, values, s, G):
+    """the recursion in exact rationals (Proofs/Marginal*.v prove it equal to the constrained sum for every number of children)"""
+    own, kids = node
+    p = [Fraction(1, G)] * G
+    for i in own:
+        p = [a * b for a, b in zip(p, values[i][s])]
+    if not kids:
+        return p
+    D = None
+    for k in kids:
+        Rk = _exact_R(k, values, s, G)
+        D = Rk if D is None else [sum(D[i] * Rk[j - i] for i in range(j + 1)) for j in range(G)]
+    acc, S = Fraction(0), []
+    for j in range(G):
+        acc += D[j]
+        S.append(acc)
+    return [a * b for a, b in zip(p, S)]
+
+
+def many_children_stream(ctx, quick):
+    """5 to 16 children under one node (the virtual root, or a clone): any pairwise / blocked reduction of the children's
+    convolution must still use every child.  Too many clones for the brute force; oracle = the exact-rational recursion."""
+    rng = ctx.rng
+    counts = [5, 6, 7, 8, 10, 13, 16] if quick else list(range(5, 21))
+    for nk in counts:
+        for under_clone in (False, True):
+            G = rng.choice([3, 4])
+            ns = rng.choice([1, 2])
+            npts = nk + (1 if under_clone else 0)
+            values = gen_values(rng, npts, ns, G)
+            leaves = tuple(((i,), ()) for i in range(nk))
+            roots = (((nk,), leaves),) if under_clone else leaves
+            from ..trees import make_data
+            data = make_data(values)
+            for mode in ("direct", "incremental", "dict"):
+                from phyclone.tree import Tree
+                t = build(roots, data, (ns, G), mode == "incremental", rng)
+                if mode == "dict":
+                    t = Tree.from_dict(t.to_dict())
+                obs = np.array(t.data_log_likelihood, dtype=float)
+                ctx.case(key=("many-children", nk, under_clone, mode), nontrivial=True)
+                ctx.count("many_children=%d" % nk)
+                for smp in range(ns):
+                    ex = _exact_R(((), roots), values, smp, G)
+                    for k in range(G):
+                        lr = float(obs[smp][k])
+                        if not math.isfinite(lr) or rel_err(math.exp(lr), ex[k]) > TOL:
+                            ctx.fail("C02:Tree.data_log_likelihood:many-children:kids=%d" % nk,
+                                     "data_log_likelihood[%d][%d]: exp = %.12g but the constrained sum is %.12g for a node with %d children (%s build)" % (smp, k, math.exp(lr) if math.isfinite(lr) else float("nan"), float(ex[k]), nk, mode),
+                                     {"children": nk, "under_clone": under_clone, "grid": G, "samples": ns, "build": mode, "values": [[[str(x) for x in row] for row in v] for v in values]})
+                            break
 
 
 # ------------------------------------------------------------------ thorough: FFT path
@@ -556,7 +611,7 @@ def fft_stream(ctx, quick=False):
     st = {'all': 0, 'in': 0, 'lit': 0, 'worst': 0.0}
     for G in (1000,) if quick else (1000, 1024):
         for kind in ("random", "peaked", "peaked_high"):
-            for nkids in (2,) if quick else (2, 3):
+            for nkids in ((2, 3) if kind == "random" else (2,)) if quick else (2, 3):
                 for under_clone in (False,) if quick and kind != "peaked" else (False, True):
                     npts = nkids + (1 if under_clone else 0)
                     ints = []
